@@ -31,9 +31,12 @@ CLAIMS = {
         "modelled connection whose existence tests on _node are answered by uninterpreted row_is_stored / room_of_stored_row / entity_of_stored_row), the AddEdges message, "
         "and the AddEdges arm of AuthorisationService::process_message up to the write message - is executed on 1-2 symbolic references; z3 shows a reference reaches "
         "the writer only if its author holds the own-rows right in the synchronised room at the reference's date AND its source row is stored in that room, and that a "
-        "single reference satisfying both is not refused. Counterexamples and samples are replayed through the public API of a real database (add_edges, then a query).",
+        "single reference satisfying both is not refused. The same for received deletion records of references: GraphDatabase::delete_edges, the closure run on the reader "
+        "connection (EdgeDeletionEntry::with_source_authors: the stored reference and its author, the room of the source row), the DeleteEdges arm and validate_edge_deletions; "
+        "a record reaches the writer only with the right its kind needs (all-rows for another author's reference) in the room it is stamped with, and never when its source "
+        "row is stored in another room. Counterexamples and samples are replayed through the public API of a real database (add_edges / delete_edges, then a query).",
    note="Kernel only: the model filter of GraphDatabase::add_nodes and the signature thread pool are outside this claim (DESIGN.md §3 C02). The reader SQL understood "
-        "by the model is an existence test on _node by id / _entity / room_id; anything else is reported as not modelled. Same trusted base as C01.",
+        "by the model is SELECT <columns> FROM _node|_edge WHERE col=? AND ... (answered from uninterpreted facts about what is stored); anything else is reported as not modelled. Same trusted base as C01.",
    design='DESIGN.md §3 C02'),
  'C12': dict(
    level='model_checking',
